@@ -155,7 +155,9 @@ class Ctx:
 
 
 def load_findings(pid):
-    p = VERIF / "known_findings.json"
+    """known_findings/<ID>.json: {"findings": [{"property", "key", "status": "open"|"fixed", "what", ...}]}.
+    Only entries with status "open" ever suppress anything; the file is never written at run time."""
+    p = VERIF / "known_findings" / f"{pid}.json"
     if not p.exists():
         return []
     data = json.loads(p.read_text())
